@@ -80,7 +80,7 @@ func v1Random(g *valGen, kind string) (v1.Claims, *signer) {
 	}
 	switch x := cl.(type) {
 	case *v1.OperatorClaims:
-		x.AccountServerURL = []string{"", "https://example.com/jwt/v1"}[g.rng.Intn(2)]
+		x.AccountServerURL = []string{"", "https://example.com/jwt/v1", "https://accounts.example.com:9090/jwt/v1?tenant=blue", "https://example.com/jwt/v1#operator"}[g.rng.Intn(4)]
 	case *v1.AccountClaims:
 		var ims v1.Imports
 		for _, im := range x.Imports {
@@ -280,6 +280,43 @@ func runC19(c *Ctx) {
 			ft := forge(hdrV1, p, "v1", s)
 			process(ft.Token, fmt.Sprintf("forged %s issued by a key with the %s", kind, s.role))
 			distinct[fmt.Sprint("forged", kind, s.role)] = true
+		}
+	}
+	// values the version-1 encoder has no spelling for (an export / import kind that is neither stream nor service):
+	// Encode may refuse them - it must not write a token that its own decoder then refuses
+	for _, bad := range []int{3, 7, -1, 255, 1 << 20} {
+		for _, where := range []string{"account export", "account import", "activation"} {
+			var cl v1.Claims
+			var kp *signer
+			kind := "account"
+			switch where {
+			case "account export":
+				x := v1.NewAccountClaims(kr.by["account"].pub)
+				x.Exports.Add(&v1.Export{Subject: "bad.kind", Type: v1.ExportType(bad)}, &v1.Export{Subject: "good.kind", Type: v1.Stream})
+				cl, kp = x, kr.by["operator"]
+			case "account import":
+				x := v1.NewAccountClaims(kr.by["account"].pub)
+				x.Imports.Add(&v1.Import{Subject: "bad.kind", Account: kr.by["account"].pub, Type: v1.ExportType(bad)})
+				cl, kp = x, kr.by["operator"]
+			default:
+				x := v1.NewActivationClaims(kr.by["account"].pub)
+				x.ImportSubject, x.ImportType = "bad.kind", v1.ExportType(bad)
+				cl, kp, kind = x, kr.by["account"], "activation"
+			}
+			tok, err := cl.Encode(kp.kp)
+			c.sum.Evaluations++
+			c.sum.ImplChecks++
+			inp := map[string]interface{}{"kind": kind, "where": where, "export_kind_value": bad, "token": tok}
+			switch {
+			case err != nil && tok != "":
+				c.violation("C19: a failed v1 Encode returned a non-empty token", inp)
+			case err == nil:
+				if _, derr := v1DecodeAs(kind, tok); derr != nil {
+					inp["error"] = derr.Error()
+					c.violation("C19: the v1 decoder refuses a token its own encoder produced", inp)
+				}
+			}
+			c.count("v1_value_without_a_spelling")
 		}
 	}
 	// Encode side
